@@ -42,12 +42,14 @@ Qed.
 Print Assumptions C02_holds_for_current_tree.
 
 (** The msg server of the current tree: on every exit of ApplyEvmMsg, after evm.Call AND after evm.Create, the sender
-    nonce is written to msg.Nonce()+1 (facts apply_post_nonce_call / apply_post_nonce_create, extracted by an abstract
+    nonce is written to msg.Nonce()+1 (facts apply_post_nonce_call / apply_post_nonce_create; the write BEFORE the invocation is per branch — apply_pre_nonce_call /
+    apply_pre_nonce_create: msg.Nonce()+1 before a call, msg.Nonce() before a creation — and only has to be a definite one; extracted by an abstract
     interpretation of the function body, helpers included); hence every admitted nonce is consumed exactly once and
     never admitted again, whatever the EVM execution did. *)
 Theorem C02_current_msg_server_writes_nonce :
-  post_nonce_call current_cfg = true /\ post_nonce_create current_cfg = true /\ nonce_reset current_cfg = true.
-Proof. vm_compute. repeat split; reflexivity. Qed.
+  post_nonce_call current_cfg = true /\ post_nonce_create current_cfg = true /\
+  pre_nonce_call current_cfg <> PreUnknown /\ pre_nonce_create current_cfg <> PreUnknown.
+Proof. vm_compute. repeat split; try reflexivity; discriminate. Qed.
 
 (** Per TxData implementation of the current tree (facts tx_price_facts): EffectiveFeeWei — what the ante handler
     deducts — and EffectiveGasPriceWeiPerGas — what the msg server refunds at — both floor the named price at the base
